@@ -42,7 +42,7 @@ pub fn worker_id() -> Option<(usize, usize)> {
 }
 
 pub fn run_workers(n: usize, extra_env: &[(&str, String)]) -> Vec<serde_json::Value> {
-    let exe = std::env::current_exe().expect("current_exe");
+    let exe = self_exe();
     let args: Vec<String> = std::env::args().skip(1).collect();
     let dir = format!("/dev/shm/kyverif.workers.{}", std::process::id());
     let _ = std::fs::create_dir_all(&dir);
@@ -57,7 +57,7 @@ pub fn run_workers(n: usize, extra_env: &[(&str, String)]) -> Vec<serde_json::Va
         for (k, v) in extra_env {
             c.env(k, v);
         }
-        let child = c.spawn().expect("spawn worker");
+        let child = spawn_retry(&mut c).expect("spawn worker");
         children.push((child, out));
     }
     let mut res = Vec::new();
@@ -86,6 +86,37 @@ pub fn run_workers(n: usize, extra_env: &[(&str, String)]) -> Vec<serde_json::Va
         std::process::exit(2);
     }
     res
+}
+
+/// Path of this executable, robust against the file having been replaced on disk by a rebuild
+/// while the process runs (Linux then reports "<path> (deleted)").
+pub fn self_exe() -> std::path::PathBuf {
+    let p = std::env::current_exe().expect("current_exe");
+    let s = p.to_string_lossy().to_string();
+    match s.strip_suffix(" (deleted)") {
+        Some(x) => std::path::PathBuf::from(x),
+        None => p,
+    }
+}
+
+/// Spawn, retrying while the executable is momentarily missing or being written (a concurrent
+/// `cargo build` relinks the harness binaries: kyrodb-engine's build script is always stale).
+pub fn spawn_retry(cmd: &mut std::process::Command) -> std::io::Result<std::process::Child> {
+    let t0 = std::time::Instant::now();
+    loop {
+        match cmd.spawn() {
+            Ok(c) => return Ok(c),
+            Err(e) if (e.kind() == std::io::ErrorKind::NotFound || e.raw_os_error() == Some(26)) && t0.elapsed() < std::time::Duration::from_secs(30) => {
+                std::thread::sleep(std::time::Duration::from_millis(200));
+            }
+            Err(e) => return Err(e),
+        }
+    }
+}
+
+pub fn output_retry(cmd: &mut std::process::Command) -> std::io::Result<std::process::Output> {
+    cmd.stdin(std::process::Stdio::null()).stdout(std::process::Stdio::piped()).stderr(std::process::Stdio::piped());
+    spawn_retry(cmd)?.wait_with_output()
 }
 
 pub fn worker_emit(v: &serde_json::Value) {
@@ -131,7 +162,7 @@ pub fn progress(idx: usize) {
 }
 
 pub fn run_chunked(total: usize, chunk: usize) -> (Vec<serde_json::Value>, Vec<usize>) {
-    let exe = std::env::current_exe().expect("current_exe");
+    let exe = self_exe();
     let args: Vec<String> = std::env::args().skip(1).collect();
     let dir = format!("/dev/shm/kyverif.chunks.{}", std::process::id());
     let _ = std::fs::create_dir_all(&dir);
@@ -159,7 +190,7 @@ pub fn run_chunked(total: usize, chunk: usize) -> (Vec<serde_json::Value>, Vec<u
                 .env("VERIF_WORKER_OUT", &out)
                 .env("RAYON_NUM_THREADS", "1")
                 .stderr(std::process::Stdio::null());
-            running.push((c.spawn().expect("spawn chunk worker"), out, job));
+            running.push((spawn_retry(&mut c).expect("spawn chunk worker"), out, job));
         }
         if running.is_empty() {
             break;
